@@ -160,3 +160,46 @@ def check(ctx):
         sk = [c for c in rb.calls if c.bb in rb.live and c.name in ("skip_while", "skip", "filter")]
         ctx.add("6.inclusive-seek-skips-foreign-first-key", "GUARD", len(sk) >= 1 and all(any(rb.path([s_.target], [t.bb]) is not None for t in tw) for s_ in sk),
                 "the reverse seek is inclusive: a key equal to the successor is skipped before the prefix filter is applied", sites=[c.where() for c in sk], site_key="skip")
+
+    # -- 7. seek / bound idioms of prefix iteration that make a backend skip keys --
+    with ctx.clause("7.prefix-iteration-idioms"):
+        # (a) RocksDb: `set_prefix_same_as_start` confines the iterator to the extractor prefix of the *seek key*; it is only
+        #     sound where the seek key is the user prefix itself (prefix-only forward iteration), never when seeking at `start`
+        ib = F.unit("fuel_core::state::rocks_db::RocksDb::_iter_store").root
+        sets = [c for c in ib.calls if c.bb in ib.live and c.name == "set_prefix_same_as_start"]
+        its = [c for c in ib.calls if c.bb in ib.live and c.is_path("fuel_core::state::rocks_db::RocksDb::iterator")]
+        ctx.expect_sites("7.rocksdb-iterator-sites", its, at_least=4, what="RocksDb::iterator calls in _iter_store")
+        bad7 = []
+        for s_ in sets:
+            fed = [c for c in its if ib.path([s_.target], [c.bb]) is not None]
+            for c in fed:
+                mode = Origins(ib, 3).atoms(c.args[3])
+                if not atom_match(mode, "agg:rocksdb::db_iterator::IteratorMode::From"):
+                    continue
+                if atom_match(mode, "param:4") or not atom_match(mode, "param:3"):
+                    bad7.append(f"{c.where()} seeks at `start` with set_prefix_same_as_start (line {s_.line})")
+        ctx.add("7.prefix_same_as_start-only-when-seeking-at-the-prefix", "GUARD", not bad7 and len(sets) <= 1,
+                "set_prefix_same_as_start is used only by the arm that seeks at the user prefix" + ("; " + "; ".join(bad7) if bad7 else "") +
+                (": on a column with a fixed-size prefix extractor the iteration would end at the 32-byte section of `start` instead of at the user prefix" if bad7 else ""),
+                sites=[c.where() for c in sets], site_key="psas")
+        # (b) in-memory (BTreeMap) iteration: a reversed range may be cut with take_while(starts_with) only if the range is bounded
+        #     above; `range(prefix..).rev().take_while(..)` starts at the largest key of the tree and ends at once
+        for fn in ("iterator", "keys_iterator"):
+            mb = F.unit(f"fuel_core_storage::iter::{fn}").root
+            tws = [c for c in mb.calls if c.bb in mb.live and c.name == "take_while"]
+            if fn == "iterator":
+                ctx.expect_sites(f"7.{fn}-prefix-cuts", tws, at_least=3, what="take_while(starts_with(prefix)) sites")
+            else:
+                dele = [c for c in mb.calls if c.bb in mb.live and c.is_path("fuel_core_storage::iter::iterator")]
+                ctx.add(f"7.{fn}-delegates-ranges-to-iterator", "SIBLING", len(tws) >= 3 or len(dele) >= 1, "keys_iterator handles prefix / start through iterator() (or its own cuts)",
+                        sites=[c.where() for c in dele + tws], site_key="dele")
+            o7 = Origins(mb, 6)
+            bad = []
+            for c in tws:
+                at = o7.atoms(c.args[0])
+                if atom_match(at, "call:core::iter::traits::iterator::Iterator::rev") and atom_match(at, "agg:core::ops::range::RangeFrom::RangeFrom") and \
+                        not atom_match(at, "agg:core::ops::range::RangeToInclusive::RangeToInclusive") and not atom_match(at, "agg:core::ops::range::Range::Range"):
+                    bad.append(c.where())
+            ctx.add(f"7.{fn}-no-reversed-unbounded-range-before-prefix-cut", "ORDER", not bad,
+                    "no `range(prefix..).rev().take_while(starts_with)`: reverse prefix iteration either cuts the forward range first and reverses the collected keys, or reverses a range bounded above"
+                    + (f" — found at {bad}: for a prefix whose range is not the last one of the tree the result is empty" if bad else ""), sites=bad or [c.where() for c in tws], site_key=fn)
